@@ -25,6 +25,8 @@ RULES = {
              'selected database; has_permission requires the kind and a matching pattern',
     'C09.c': 'SelectedDatabase.{name,user_name} are written only in the UseDb arm after the token check succeeded; '
              'Client.auth is set true only after both credential comparisons or on a node-link client created locally',
+    'C09.d': 'credentials are not carried over: a transport that accepts requests in a loop creates a fresh Client inside that '
+             'loop; has_permission reads the permission list from Database.map on every call',
 }
 
 ADMIN = {'CreateDb', 'Snapshot', 'CreateUser', 'SetPermissions', 'Join', 'Leave', 'SetPrimary', 'SetScoundary',
@@ -104,6 +106,7 @@ def run(ck, m):
     replies(ck, m)
     predicates(ck, m)
     writers(ck, m)
+    fresh_credentials(ck, m)
 
 
 def judge(m, ex, prefix, variant, ev, kind, info):
@@ -155,6 +158,54 @@ def judge(m, ex, prefix, variant, ev, kind, info):
     if safe:
         return True, 'secure-key guard'
     return False, 'unlisted variant acts outside the admin / secure-key guard'
+
+
+def fresh_credentials(ck, m):
+    P = m.prog
+    from props.C07 import natural_loops
+    pr = m.reentry_names()
+    n = 0
+    for b in P.user_bodies():
+        if b.id.startswith(('nundb::client::', 'nundb::command_line::')):
+            continue
+        accepts = [bi for bi, t in b.calls() if callee_decl(t) in ('tiny_http::Server::recv', 'std::net::TcpListener::accept')]
+        if not accepts:
+            continue
+        news = [bi for bi, t in b.calls() if 'bo::Client::new_empty' in callee(t)]
+        loops = natural_loops(b)
+        for a in accepts:
+            inloops = [body for h, body in loops if a in body]
+            if not inloops:
+                continue
+            n += 1
+            body = min(inloops, key=len)
+            ok = bool(news) and all(x in body for x in news)
+            ck.ob('C09.d', short(b.id), 'fresh-client-per-request', ok,
+                  'the Client of a request is created inside the accept loop' if ok else
+                  'the Client is created outside the loop that accepts requests: the administrator flag and the selection of one '
+                  'request are inherited by the next request served by this thread', b.loc(a))
+    ck.floor('C09.d', n, 1, 'accept loops (HTTP workers)')
+    # has_permission: the list it parses comes from a read of the database in the same call
+    pb, pspec = m.guard_of_kind('dbname_perm')
+    hp = None
+    for bi, t in pb.calls():
+        cb = P.bodies.get(callee(t))
+        if cb is not None and cb.locals[0] == 'bool' and any('PermissionKind' in x for x in cb.locals[1:cb.argc + 1]):
+            hp = cb
+    if hp is not None:
+        ok = False
+        why = 'no call parsing a permission list found'
+        for bi, t in hp.calls():
+            if callee(t).endswith('bo::Permission::permissions_from_str'):
+                from nl.locks import backward_slice
+                calls, params = backward_slice(hp, t['args'][0])
+                reads = [c for c in calls if P.bodies.get(callee(hp.term(c))) is not None and
+                         any(callee_decl(t2) == 'std::sync::RwLock::read' for _, t2 in P.bodies[callee(hp.term(c))].calls())
+                         and 'nundb::bo::Database' in P.bodies[callee(hp.term(c))].locals[1]]
+                ok = bool(reads)
+                why = 'the permission list is read from the database on every check' if ok else \
+                    'the permission list parsed by has_permission does not come from a read of Database.map in this call (cached / stale source)'
+        ck.ob('C09.d', short(hp.id), 'permission-list-read-fresh', ok, why, '%s:%s' % (hp.file, hp.line))
 
 
 def first_block_in(m, ev):
